@@ -537,9 +537,21 @@ fn serialise_router_advertisement(a: &RtrAdvertisement) -> Vec<u8> {
                 while (b.len() + 2) % 8 != 0 {
                     b.push(0x00_u8);
                 }
-                v.serialise(CAPTIVE_PORTAL.0);
-                v.serialise((1 + b.len() / 8) as u8);
-                v.serialise(&b);
+                /* The length octet counts units of 8 octets, the option's own two octet head
+                 * included: a URL of more than 2038 octets cannot be carried.  Leave the option
+                 * out rather than send one whose length has wrapped.
+                 */
+                match u8::try_from(1 + b.len() / 8) {
+                    Ok(units) => {
+                        v.serialise(CAPTIVE_PORTAL.0);
+                        v.serialise(units);
+                        v.serialise(&b);
+                    }
+                    Err(_) => log::warn!(
+                        "Not advertising captive portal URL of {} octets: too long for the option",
+                        url.len()
+                    ),
+                }
             }
         }
     }
